@@ -592,7 +592,18 @@ XMLCh* XMLAbstractDoubleFloat::getCanonicalRepresentation(const XMLCh*         c
                 *retPtr++ = chDash;
             }
 
-            *retPtr++ = manBuf[0];
+            // parseDecimal() keeps the zeros between the decimal point and the first
+            // significant digit (0.001 -> manBuf = 001, totalDigits = 3, fractDigits = 3):
+            // the mantissa starts at the first non-zero digit, every skipped zero is one
+            // digit less (sign != 0, so there is a non-zero digit)
+            const XMLCh* manPtr = manBuf;
+            while (*manPtr == chDigit_0)
+            {
+                manPtr++;
+                totalDigits--;
+            }
+
+            *retPtr++ = manPtr[0];
             *retPtr++ = chPeriod;
 
             //XMLBigDecimal::parseDecimal() will eliminate trailing zeros
@@ -606,7 +617,7 @@ XMLCh* XMLAbstractDoubleFloat::getCanonicalRepresentation(const XMLCh*         c
             //
             // for the latter, we need to print it as 5.678e5 instead
             //
-            XMLCh* endPtr = manBuf + totalDigits;
+            const XMLCh* endPtr = manPtr + totalDigits;
 
             if (fractDigits == 0)
             {
@@ -614,11 +625,11 @@ XMLCh* XMLAbstractDoubleFloat::getCanonicalRepresentation(const XMLCh*         c
                     endPtr--;
             }
 
-            XMLSize_t remainLen = endPtr - &(manBuf[1]);
+            XMLSize_t remainLen = endPtr - &(manPtr[1]);
 
             if (remainLen)
             {
-                XMLString::copyNString(retPtr, &(manBuf[1]), remainLen);
+                XMLString::copyNString(retPtr, &(manPtr[1]), remainLen);
                 retPtr += remainLen;
             }
             else
